@@ -35,6 +35,9 @@ let parse_ops toks =
     | "RA" :: k :: f :: n :: r -> cur := ORA (ni k, nati f, ni n) :: !cur; go r
     | "WA" :: k :: f :: n :: r -> cur := OWA (ni k, nati f, ni n) :: !cur; go r
     | "RO" :: f :: r -> cur := ORO (nati f) :: !cur; go r
+    | "RL" :: f :: r -> cur := ORL (nati f) :: !cur; go r
+    | "AT" :: f :: r -> cur := OAT (nati f) :: !cur; go r
+    | "AS" :: f :: r -> cur := OAS (nati f) :: !cur; go r
     | "TO" :: k :: ob :: d :: r -> cur := OTO (ni k, ni ob, z_of_int (int_of_string d)) :: !cur; go r
     | "CO" :: ob :: r -> cur := OCO (ni ob) :: !cur; go r
     | "I" :: k :: f :: r -> cur := OI (ni k, nati f) :: !cur; go r
